@@ -161,6 +161,20 @@ CHECKS["C07"] = dict(
     design="4 (C07)",
     note="flows whose records disagree on whether correlation is needed are outside the statement; fixed Antrea configuration of correlate fields.")
 
+CHECKS["C06"] = dict(
+    engine="agg",
+    technique="Lean 4 proof (scheduling invariant by induction over all op sequences incl. aborted scans; loop invariant of the expiry scan; binary-heap correctness of the container/heap algorithm) + exhaustive small-trace correspondence under a virtual clock",
+    text="Proved on the aggregation model, whose queue runs the real container/heap sift algorithms (Model/Heap.lean; push/pop/fix preserve the "
+         "permutation and the heap order, pop returns the root and the minimum - Lemmas/Heap.lean): no_flow_stranded (after ANY sequence of "
+         "arrivals, clock advances and scans - aborted by failing callbacks, with retries and drops - exactly one queue item per held flow and a "
+         "valid heap), callback_only_when_due, after_complete_scan_all_future, new_flow_deadlines, record_pushes_inactive_deadline, "
+         "other_flows_untouched, next_expiry_is_earliest_deadline, pop_is_earliest. All traces of length <= 5 over {record, advance A / I-A / I, "
+         "scan with failing subset} on 2 keys plus long random traces are run on the real process under the virtual clock with a heap snapshot "
+         "after every step: the heap array is compared position by position, and the heap-independent declarative spec (Ipfix.C06.checkSched / "
+         "checkRec / checkScan / expectedExpiry) is evaluated on every implementation snapshot.",
+    design="4 (C06), 5 (D7, D8 fixed)",
+    note="time.Now() is replaced by the harness clock through the overlay rewrite; timeouts > 0 for after_complete_scan_all_future.")
+
 NOT_YET = {}
 
 
